@@ -13,6 +13,7 @@ from mir import Origins, strip, const_int, Origin
 from rules.c17 import shape
 from rules.c01 import sub_check
 
+THOROUGH_CONFIGS = ("release", "arbitrary")
 LEVEL = "other"
 FP = "stun_types::attribute::fingerprint::Fingerprint"
 XOR_CONST = FP + "::XOR_CONSTANT"
